@@ -11,6 +11,7 @@ import (
 	"strconv"
 	"strings"
 	"sync"
+	"time"
 
 	jsonpatch "github.com/evanphx/json-patch/v5"
 	apivalidation "k8s.io/apimachinery/pkg/api/validation"
@@ -362,7 +363,8 @@ func (s *Server) create(d *ResourceDef, ns string, in map[string]any) (map[strin
 	}
 	s.uidN++
 	m["uid"] = fmt.Sprintf("uid-%04d", s.uidN)
-	m["creationTimestamp"] = s.Now
+	// one second per created object: creation order is visible in the timestamps, as on a real cluster
+	m["creationTimestamp"] = time.Date(2024, 1, 1, 0, 0, 0, 0, time.UTC).Add(time.Duration(s.uidN) * time.Second).Format(time.RFC3339)
 	delete(m, "deletionTimestamp")
 	delete(m, "deletionGracePeriodSeconds")
 	delete(m, "selfLink")
